@@ -80,7 +80,7 @@ class Reporter:
         v = Violation(rule, where, function, construct, message, witness)
         # de-duplicate
         for o in self.violations:
-            if o.key() == v.key() and o.message == v.message:
+            if o.key() == v.key():
                 return o
         self.violations.append(v)
         return v
